@@ -14,6 +14,7 @@
 #include <cstdio>
 #include <cstdlib>
 #include <sys/mman.h>
+#include <pthread.h>
 #include "vf_common.h"
 #include "vf_sched.h"
 #include "vf_os.h"
@@ -562,17 +563,31 @@ static void arena_probe(void) {
 // ------------------------------------------------------------------------------------------------
 // result
 // ------------------------------------------------------------------------------------------------
-static size_t g_abandoned_left = 0, g_big_nonarena = 0; static int g_final_checked = 0;
+static size_t g_abandoned_left = 0, g_big_nonarena = 0; static int g_final_checked = 0; static long g_arena_inuse_end = -1;
+// arena blocks in use, as reported by the allocator's own diagnostic output ("total inuse blocks : N")
+static std::string g_capture;
+static void capture_out(const char* msg, void*) { if (g_capture.size() < (1u << 22)) g_capture += msg; }
+static long arena_inuse_blocks() {
+  g_capture.clear();
+  mi_register_output(&capture_out, nullptr);
+  mi_debug_show_arenas();
+  mi_register_output(&vf_output_cb, nullptr);
+  size_t pos = g_capture.rfind("total inuse blocks");
+  long n = -1;
+  if (pos != std::string::npos) { size_t c = g_capture.find(':', pos); if (c != std::string::npos) n = strtol(g_capture.c_str() + c + 1, nullptr, 10); }
+  g_capture.clear();
+  return n;
+}
 static void result_body(FILE* f) {
   vf_sched_stats_t st; vf_sched_get_stats(&st);
   fprintf(f, "\"scenario\":\"%s\",\"variant\":\"%s\",\"seed\":%llu,\"threads\":%d,\"hash\":\"%016llx\",", C.scenario.c_str(), C.variant.c_str(), (unsigned long long)C.seed, C.threads,
           (unsigned long long)(st.sched_hash ^ (g_allocs.load() * 1000003ull) ^ (g_frees_remote.load() << 20)));
   fprintf(f, "\"mt\":{\"allocs\":%llu,\"alloc_null\":%llu,\"local_frees\":%llu,\"remote_frees\":%llu,\"sends\":%llu,\"recvs\":%llu,\"verified\":%llu,\"collects\":%llu,\"thread_starts\":%llu,\"thread_exits\":%llu,"
-             "\"heap_deletes\":%llu,\"claims\":%llu,\"claims_failed\":%llu,\"events\":%llu,\"max_live_in_replay\":%llu,\"abandoned_blocks_left\":%zu,\"final_checked\":%d,\"probe_single\":%zu,\"probe_whole\":%d,\"subproc_allocs_checked\":%llu},",
+             "\"heap_deletes\":%llu,\"claims\":%llu,\"claims_failed\":%llu,\"events\":%llu,\"max_live_in_replay\":%llu,\"abandoned_blocks_left\":%zu,\"final_checked\":%d,\"probe_single\":%zu,\"probe_whole\":%d,\"subproc_allocs_checked\":%llu,\"arena_inuse_end\":%ld},",
           (unsigned long long)g_allocs.load(), (unsigned long long)g_alloc_null.load(), (unsigned long long)g_frees_local.load(), (unsigned long long)g_frees_remote.load(), (unsigned long long)g_sends.load(),
           (unsigned long long)g_recvs.load(), (unsigned long long)g_verified.load(), (unsigned long long)g_collects.load(), (unsigned long long)g_thread_starts.load(), (unsigned long long)g_thread_exits.load(),
           (unsigned long long)g_heap_deletes.load(), (unsigned long long)g_claims.load(), (unsigned long long)g_claim_fail.load(), (unsigned long long)g_events, (unsigned long long)g_max_live_replay,
-          g_abandoned_left, g_final_checked, g_probe_single, g_probe_whole, (unsigned long long)g_subproc_checked);
+          g_abandoned_left, g_final_checked, g_probe_single, g_probe_whole, (unsigned long long)g_subproc_checked, g_arena_inuse_end);
   fprintf(f, "\"sched\":{\"mode\":%d,\"policy\":%d,\"points\":%llu,\"switches\":%llu,\"forced\":%llu,\"spurious_cas\":%llu,\"delays\":%llu,\"hash\":\"%016llx\",\"budget_exceeded\":%d,\"threads_created\":%d},",
           C.sched.mode, C.sched.policy, (unsigned long long)st.points, (unsigned long long)st.switches, (unsigned long long)st.forced_switches, (unsigned long long)st.spurious, (unsigned long long)st.delays,
           (unsigned long long)st.sched_hash, st.budget_exceeded, st.threads_created);
@@ -596,15 +611,31 @@ static void result_body(FILE* f) {
 static void final_exit_checks() {
   // C09: once the last block was freed and the survivors collected, nothing abandoned may be left
   g_final_checked = 1;
+  vf_cur_what = "final checks at quiescence";
   mi_collect(true); mi_collect(true);
+  if (C.subprocs > 1) {
+    // abandoned memory is only adopted inside its own sub-process: one more thread per sub-process force-collects (which releases every abandoned segment that holds no block any more)
+    for (int i = 0; i < 2; i++) {
+      pthread_t th;
+      pthread_create(&th, nullptr, [](void* a) -> void* { mi_subproc_add_current_thread(*(mi_subproc_id_t*)a); void* p = mi_malloc(64); mi_free(p); mi_collect(true); mi_collect(true); return nullptr; }, &g_subproc[i]);
+      pthread_join(th, nullptr);
+    }
+    mi_collect(true);
+  }
   if (mi_option_is_enabled(mi_option_visit_abandoned)) {
     CountCtx c;
     mi_abandoned_visit_blocks(mi_subproc_main(), -1, true, &count_blocks_visitor, &c);
     for (int i = 0; i < 2 && C.subprocs > 1; i++) mi_abandoned_visit_blocks(g_subproc[i], -1, true, &count_blocks_visitor, &c);
     g_abandoned_left = c.used;
-    if (c.used != 0 && C.subprocs <= 1)
+    if (c.used != 0)
       vf_trip("abandoned-leak", "C09", "every block was freed and the survivors force-collected, but mi_abandoned_visit_blocks still reports %zu blocks in %zu areas", c.used, c.areas);
   }
+  g_arena_inuse_end = arena_inuse_blocks();
+  // every thread but this one has terminated, every block was freed and this (main) thread force-collected twice, which adopts whatever was abandoned in its sub-process:
+  // no arena block may still be claimed by a segment (a segment that can neither be found for adoption nor freed is leaked)
+  if (g_arena_inuse_end > 0)
+    vf_trip("arena-segment-leaked", "C09,C11", "every block was freed, all other threads have terminated and the main thread (and one fresh thread per sub-process) force-collected, but %ld arena blocks are still in use "
+            "(mi_abandoned_visit_blocks reports %zu blocks): a segment was neither released nor left adoptable", g_arena_inuse_end, g_abandoned_left);
   // OS-allocated segments (arena allocation disabled): all of them must be unmapped by now
   if (mi_option_is_enabled(mi_option_disallow_arena_alloc) && C.subprocs <= 1) {
     std::vector<vf_os_region_t> rs(2048); size_t n = vf_os_regions(rs.data(), rs.size());
